@@ -21,6 +21,8 @@ H.append({"name":"H_shapes","tiers":T,"scale":"b4","bounds":"B=4: sizes (9,4),(5
   "param_sets":[{"n0":a,"n1":b,"s0":s0,"s1":s1,"extra":0} for (a,b) in ((9,4),(5,8)) for s0 in range(0,9) for s1 in range(0,9)]})
 H.append({"name":"H_pair","tiers":Q,"scale":"b2","bounds":"the same through the two model codecs (compression wiring: header, stream, trailer, decompressing source): B=2, old 0..4, new in {0,3,5}",
   "param_sets":[{"n0":a,"n1":-1,"nnew":n,"comp":c} for a in (0,2,3,4) for n in (0,3,5) for c in (1,2)]})
+H.append({"name":"H_real","tiers":Q,"max_steps":2000000000,"bounds":"REGIME R (no constant scaled): old a = 2 blocks + 100 bytes, b = 1 block + 1 byte, concrete pseudo-random; new = unaligned 2-byte symbolic insertion + tail edit / second block onwards + fresh byte + duplicated file / swapped files with a symbolic first byte",
+  "param_sets":[{"nb":2,"shape":sh} for sh in (0,1,2)]})
 json.dump({"property":"C01","package":"c01","scale":scale,"harnesses":H,
  "stubs":["os -> in-memory file system model (copy buffer = B/2 as 32 KiB is to 64 KiB)","crypto/md5 -> injective model","protobuf/wire -> tag-faithful codec model","goroutines of the differ under the deterministic run-until-block schedule (schedules: C15)"],
  "outside":["the real gzip/brotli codecs (model codecs cover the wiring): gzip/brotli/zstd codecs are not encodable (cgo / input-length loops)","block size 64 KiB and sizes > 4 MiB (declared constants scaled; uses are real)","real file system"]},open("config.json","w"),indent=1)
